@@ -1276,8 +1276,40 @@ class FnTranslator:
             return [('for', ini, c, ic, b, ordn)]
         if k == 'WhileStmt':
             parts = self.inner(n)
-            c = self.expr(parts[0])
-            cpre = self.flush()
+            conj = []
+
+            def flatten(e):
+                e = self.strip(e)
+                while e['kind'] == 'ImplicitCastExpr' and e.get('castKind') in ('NoOp', 'LValueToRValue') and self.strip(self.inner(e)[0])['kind'] == 'BinaryOperator':
+                    e = self.strip(self.inner(e)[0])
+                if e['kind'] == 'BinaryOperator' and e.get('opcode') == '&&':
+                    for x in self.inner(e):
+                        flatten(x)
+                else:
+                    conj.append(e)
+            flatten(parts[0])
+            if len(conj) > 1:
+                tests = []
+                for e in conj:
+                    ce = self.expr(e)
+                    tests.append((self.flush(), ce))
+                if any(pre for pre, _ in tests[1:]):
+                    # while (A && B) where evaluating B has side effects (++it != end): B's effects happen only when A holds
+                    ordn = self.loopn
+                    self.loopn += 1
+                    b = self.stmt(parts[1])
+                    head = []
+                    for pre, ce in tests:
+                        head += pre + [('if', ('un', '!', ce, ('bool',)), [('break',)], [])]
+                    self.rule('while (A && B) with side effects in B -> while(1) { if (!A) break; effects of B; if (!B) break; body }')
+                    return [('while', ('const', ('bool',), 1), head + b, ordn)]
+                c = tests[0][1]
+                for _, ce in tests[1:]:
+                    c = ('bin', '&&', c, ce, ('bool',))
+                cpre = tests[0][0]
+            else:
+                c = self.expr(parts[0])
+                cpre = self.flush()
             ordn = self.loopn
             self.loopn += 1
             b = self.stmt(parts[1])
